@@ -225,13 +225,13 @@ Example C15_machine_nonvacuous :
   (forall k o, In o (nth k (p_stages pipe3) []) -> s_core o = 0 \/ s_core o = 1) /\
   (1 <= nstages pipe3)%nat /\ ~ duprel [10; 11] (bid 1 8) /\ duprel [10; 11] (bid 1010 0).
 Proof.
-  split; [reflexivity|]. split; [reflexivity|]. split; [|split; [simpl; lia|split]].
+  split; [reflexivity|]. split; [reflexivity|]. split; [|split; [vm_compute; lia|split]].
   - intros k o H. destruct k as [|[|[|k]]]; simpl in H.
     + destruct H as [<-|[]]. right. reflexivity.
     + destruct H as [<-|[]]. left. reflexivity.
     + destruct H as [<-|[]]. right. reflexivity.
     + destruct k; destruct H.
-  - intros [b [Hb Hx]]. unfold bid, IDLIM, DUPOFF in Hx. destruct Hb as [<-|[<-|[]]]; destruct Hx as [Hx|Hx]; lia.
+  - intros [b [Hb Hx]]. destruct Hb as [<-|[<-|[]]]; destruct Hx as [Hx|Hx]; vm_compute in Hx; discriminate.
   - exists 10. split; [left; reflexivity | right; reflexivity].
 Qed.
 Print Assumptions C15_machine_nonvacuous.
